@@ -420,6 +420,11 @@ func (s *Sys) Run(id string, o RunOpts) (res Result) {
 				if err := count(); err != nil {
 					return err
 				}
+			} else {
+				// a refused re-synchronisation request ends the invocation like a transient answer does:
+				// nothing is written, the configuration stays SYNCHRONIZING; the twin records only the
+				// accepted requests of a re-synchronisation, so the log does the same
+				s.Devs.SkipLog = true
 			}
 			return GrpcErr(failureCodes[strings.TrimPrefix(o.Dev, "fail:")])
 		}
